@@ -36,3 +36,6 @@ pub assume_specification<T, E>[ Result::<T, E>::unwrap_or ](r: Result<T, E>, def
 
 pub assume_specification[ i64::saturating_add ](a: i64, b: i64) -> (r: i64) ensures r == (if a + b > i64::MAX { i64::MAX } else if a + b < i64::MIN { i64::MIN } else { (a + b) as i64 });
 pub assume_specification[ i64::saturating_sub ](a: i64, b: i64) -> (r: i64) ensures r == (if a - b > i64::MAX { i64::MAX } else if a - b < i64::MIN { i64::MIN } else { (a - b) as i64 });
+
+pub assume_specification[ String::len ](s: &String) -> (r: usize)
+    ensures r == string_bytes(*s).len();
